@@ -22,6 +22,19 @@ def run_impl(lines, prop=PROP):
     return out
 
 
+def run_impl_parallel(lines, workers=8):
+    """independent lines on several harness processes (contiguous chunks, answers concatenated in
+    order; every random choice was drawn before)"""
+    from concurrent.futures import ThreadPoolExecutor
+    if len(lines) < 4 * workers:
+        return run_impl(lines)
+    n = (len(lines) + workers - 1) // workers
+    chunks = [lines[i:i + n] for i in range(0, len(lines), n)]
+    with ThreadPoolExecutor(max_workers=workers) as ex:
+        outs = list(ex.map(run_impl, chunks))
+    return [a for o in outs for a in o]
+
+
 def run_model(lines, prop=PROP):
     rc, out, err = common.run_exec(common.driver_bin(prop), [], lines)
     if rc != 0 or len(out) < len(lines):
@@ -169,6 +182,8 @@ def rewrites(rng, p, accepted, max_single=8):
             out.append(("annotate-one:targs/verdict-only", scopegen.annotate(p, [st])))
     q = dict(p)
     q["split"] = [c for c in scopegen.LIB_ORDER if rng.chance(1, 2)] or ["Sh"]
+    if p.get("extra") and rng.chance(1, 2):      # declarations of the path family move together
+        q["split"] = [c for c in p["classes"] if c != "Main"]
     out.append(("split-modules", q))
     return out
 
@@ -371,21 +386,29 @@ def run(ctx):
 
     # ---------- oracle: metamorphic run on the real checker
     nrandom = len(progs)
-    progs = progs + mix_family(ctx)
+    path_fam = [scopegen.path_program(e) for e in scopegen.PATH_FAMILY]
+    progs = progs + mix_family(ctx) + path_fam
+    fam_rng = common.Rng(0xC13)      # the deterministic families do not depend on VERIF_SEED
     lines, meta = [], []
     for pi, p in enumerate(progs):
         lines.append("check " + hexs(json.dumps(scopegen.render(p))))
         meta.append((pi, "original", p))
-    verdicts = run_impl(lines)
+    verdicts = run_impl_parallel(lines)
     lines2, meta2 = [], []
     for (pi, _, p), v in zip(meta, verdicts):
         acc = v.startswith("accepted")
-        for kind, q in (mix_rewrites(p, acc) if p.get("mix") else rewrites(rng.fork(), p, acc)):
+        if p.get("path") and v.split(" ")[0] != p["path"][1] and not v.startswith("panic"):
+            ctx.violation("deterministic checker-path family: `%s` is expected to be %s but the checker says: %s" % (p["path"][0], p["path"][1], v[:80]),
+                          {"family": "path", "case": p["path"][0], "sources": scopegen.render(p), "verdict": v,
+                           "broken": "the family no longer reaches the diagnostic it was written for"}, no_input=True)
+        for kind, q in (mix_rewrites(p, acc) if p.get("mix") else
+                        rewrites(fam_rng.fork() if p.get("path") else rng.fork(), p, acc)):
             lines2.append("check " + hexs(json.dumps(scopegen.render(q))))
             meta2.append((pi, kind, q))
-    verdicts2 = run_impl(lines2)
+    verdicts2 = run_impl_parallel(lines2)
     hist["programs"] = len(progs)
     hist["programs_deterministic_family"] = len(progs) - nrandom
+    hist["programs_path_family"] = len(path_fam)
     hist["programs_accepted"] = sum(1 for v in verdicts if v.startswith("accepted"))
     hist["programs_rejected"] = sum(1 for v in verdicts if v.startswith("rejected"))
     hist["rewrite_instances"] = {}
